@@ -113,6 +113,7 @@ class Machine:
         self.loop_hot = collections.Counter()
         self.unsupported = []
         self.tolerant = False
+        self.race = None
         self.max_recursion = 4
         self.do_restrict = False   # guard-context simplification of loaded values (enabled in window passes)
         self.hard_loop_cap = 5000
@@ -828,7 +829,7 @@ class Machine:
                 n = self.ty.size(I.ty); w = n * 8
                 old = self.load(p, n, eg, 'cmpxchg')
                 ok = Cmp('eq', old, exp, w)
-                self.event('cmpxchg', eg, key, I, p)
+                self.event('cmpxchg', eg, key, I, p, ok)
                 self.store(p, n, new, And(eg, ok), 'cmpxchg')
                 env[I.dst] = self.keep(key, eg, (old, ok), _CX[w])
                 kp.pop()
@@ -893,9 +894,14 @@ class Machine:
         lst = self.optimes.setdefault((op, begin), [])
         lst.append((eg, self.pass_no, self.cur.tid))
 
-    def event(self, kind, eg, key, I, p):
+    def event(self, kind, eg, key, I, p, ok=None):
         if self.trace_hook is not None and eg is not False:
             self.trace_hook(kind, eg, key, I, p)
+        if self.race is not None and kind in ('load', 'store', 'cmpxchg', 'rmw', 'fence'):
+            k = kind
+            if kind == 'load' and I.order is not None: k = 'aload'
+            elif kind == 'store' and I.order is not None: k = 'astore'
+            self.race.event(k, I.order, I.order2, eg, key, p, ok)
 
     def _call(self, fr, I, g):
         env = fr.env
